@@ -8,8 +8,16 @@ import (
 	"encoding/json"
 	"fmt"
 	"os"
+	"runtime"
 	"sort"
+	"time"
 )
+
+// memBudget bounds the live heap of one case (runaway allocation counts as not returning).
+const memBudget = 3 << 30
+
+// caseBudget bounds one case (a handful of library calls on small inputs).
+var caseBudget = 10 * time.Second
 
 // Ev is one trace event. Every integer must stay below 2^31 and there is no null.
 type Ev map[string]any
@@ -107,7 +115,33 @@ func execCases(casesPath, tracePath string) {
 		}
 		w.Begin(head.Case, head.Fam)
 		raw := append(json.RawMessage(nil), line...)
+		// watchdog: a call that does not return is an outcome too (reported, never judged by TLC)
+		done := make(chan struct{})
+		go func(cas int) {
+			deadline := time.After(caseBudget)
+			tick := time.NewTicker(100 * time.Millisecond)
+			defer tick.Stop()
+			for {
+				select {
+				case <-done:
+					return
+				case <-tick.C:
+					var ms runtime.MemStats
+					runtime.ReadMemStats(&ms)
+					if ms.HeapAlloc < memBudget {
+						continue
+					}
+				case <-deadline:
+				}
+				// the main goroutine is stuck inside the library (or allocating without bound):
+				// nothing else writes to the trace
+				w.w.Flush()
+				fmt.Printf("HANG case=%d executed_before=%d\n", cas, n)
+				os.Exit(0)
+			}
+		}(head.Case)
 		run(raw, w)
+		close(done)
 		n++
 	}
 	if err := sc.Err(); err != nil {
